@@ -27,6 +27,7 @@ type Tables struct {
 	CoAccess      []CoAccessSpec      `json:"co_access"`
 	NestedKills   []NestedKillSpec    `json:"nested_kills"`
 	RuleCoverage  []RuleCoverageSpec  `json:"rule_coverage"`
+	Positional    []PositionalSpec    `json:"positional_access"`
 	Termination   TermSpec            `json:"termination"`
 	FuncProps     map[string][]string `json:"func_props"` // function key -> properties that depend on its termination
 	// E5
